@@ -94,6 +94,19 @@ def forDown {σ : Type} (f : Nat → σ → Outcome σ) : Nat → σ → Outcome
     | .err => .err
     | .panic => .panic
 
+/-- `xs.iter().map(f).collect()` where `f` may panic -/
+def mapO {α β : Type} (f : α → Outcome β) : List α → Outcome (List β)
+  | [] => .ok []
+  | x :: xs =>
+    match f x with
+    | .ok y =>
+      match mapO f xs with
+      | .ok ys => .ok (y :: ys)
+      | .err => .err
+      | .panic => .panic
+    | .err => .err
+    | .panic => .panic
+
 /-- the `Entry` trait (plus the `Scalar` operations the generic code uses) -/
 structure Backend (α : Type) where
   zero : α
@@ -271,7 +284,7 @@ def matMul (B : Backend α) {n m k : Nat} (a : Mat α n m) (b : Mat α m k) : Ou
 /-- `submatrix(rows, columns)` : both index lists are asserted to be in range first -/
 def submatrix {nr nc : Nat} (m : Mat α nr nc) (rows cols : List Nat) : Outcome (List (List α)) :=
   if rows.all (· < nr) && cols.all (· < nc) then
-    rows.mapM fun i => cols.mapM fun j => m.get i j
+    mapO (fun i => mapO (fun j => m.get i j) cols) rows
   else .panic
 
 /-! ### `RowEchelonVecMatrix` -/
@@ -333,7 +346,7 @@ def nullSpaceMatrix (B : Backend α) {nr nc : Nat} (m : Mat α nr nc) : Outcome 
 def nullSpace (B : Backend α) {nr nc : Nat} (m : Mat α nr nc) : Outcome (List (List (List α))) :=
   (transpose B m).bind fun mt => (echelon B true mt).bind fun re =>
   (transpose B re.multiplier).bind fun s =>
-  ((List.range nc).drop re.rank).mapM fun i => submatrix s (List.range nc) [i]
+  mapO (fun i => submatrix s (List.range nc) [i]) ((List.range nc).drop re.rank)
 
 /-- `&re.result[row] * &result` : `(VecMatrix::from(slice) * rhs)[0]` -/
 def rowTimes (B : Backend α) {nr nc k : Nat} (a : Mat α nr nc) (row : Nat) (x : Mat α nc k) :
